@@ -33,13 +33,13 @@ RULE = ("call kinds {read(str path), read(Path), write(path), to_csv(path), writ
         "curves, bad csv kwargs ...). distinct = distinct (call kind, scenario, fault kind, k); non-trivial = a run in "
         "which the fault actually fired (or the induced exception was raised) while a handle opened by lasio existed")
 ASSUMPTIONS = [
-    "faults are injected on read/readline/readlines/next/write/writelines/seek/tell, not on close()",
+    "faults are injected on read/readline/readlines/next/write/writelines/seek/tell, not on close(); a persistent fault additionally fails every later operation and flush()",
     "failpoints are placed only in callee frames (reader.*, writer.*, update_start_stop_step, LASFile.data ...), never in LASFile.read/write/to_csv or open_with_codecs themselves: an exception raised between 'finally:' and 'close()' is not a failure lasio can be asked to survive",
     "a caller-supplied file object passed to read() may be closed by lasio (the statement speaks about write() and to_csv() only)",
 ]
 EXHAUSTIVE = "for every scenario of the grid, every fault position k = 1..N of its clean run (proxied I/O operations); thorough: also every executed line n = 1..M of the callee functions"
 REQUIRED = ["runs_with_fault_fired_while_handle_open", "ledger_checks", "fd_scans", "audit_matches", "induced_failures_raised",
-            "caller_file_checks", "lasfile_handle_scans", "failpoint_runs_fired"]
+            "caller_file_checks", "lasfile_handle_scans", "failpoint_runs_fired", "op_fault_runs_persistent"]
 SOFT_DEADLINE = {"quick": 100, "thorough": 1500}
 LEVEL_TEXT = ("Fault enumeration: for each scenario every I/O-operation fault position of the clean run is executed against "
               "the real code (exhaustive for the scenario), plus executed-line failpoints and input-induced failures; three "
@@ -268,14 +268,14 @@ def scan_lasfile(las):
     return found
 
 
-def one_run(ctx, case, fail_at=None, line_at=None):
+def one_run(ctx, case, fail_at=None, line_at=None, sticky=False):
     """Execute the scenario once under observation.  Returns a dict describing what was seen."""
     V = ctx.violation
     holder = {}
 
     def ledger_factory():
         return holder["ledger"]
-    ledger = iofault.Ledger(ctx.filedir, fail_at=fail_at)
+    ledger = iofault.Ledger(ctx.filedir, fail_at=fail_at, sticky=sticky)
     holder["ledger"] = ledger
     thunk, caller_file, las, out = scenario(ctx, case, ledger_factory)
     base_fds = iofault.fds_into(ctx.filedir) or {}
@@ -399,12 +399,18 @@ def run_case(case, ctx):
             ctx.sample({"scenario": {k: case[k] for k in ("call", "input", "opts")}, "io_operations_in_clean_run": N,
                         "first_operations": clean["trace"][:25]}, limit=3)
         hi = min(N, lo + case.get("span", CHUNK))
+        writing = case["call"] in ("write", "write_obj", "to_csv", "to_csv_obj")
         for k in range(lo + 1, hi + 1):
-            r = one_run(ctx, case, fail_at=k)
-            ctx.count("op_fault_runs")
-            if not r["fired"]:
-                ctx.count("op_fault_not_fired")
-            ctx.case_done([case["call"], case["input"], case.get("opts"), "op", k], nontrivial=r["fired"] and r["handle_existed"])
+            # one-shot fault at the k-th operation; for the writers (few operations) and every 4th reader position also a
+            # *persistent* device error: every later operation, flush included, fails as well (disk full, device gone)
+            for sticky in ((False, True) if (writing or k % 4 == 0) else (False,)):
+                r = one_run(ctx, case, fail_at=k, sticky=sticky)
+                ctx.count("op_fault_runs")
+                if sticky:
+                    ctx.count("op_fault_runs_persistent")
+                if not r["fired"]:
+                    ctx.count("op_fault_not_fired")
+                ctx.case_done([case["call"], case["input"], case.get("opts"), "op", k, sticky], nontrivial=r["fired"] and r["handle_existed"])
         return
     if fault == "line":
         ntr = ctx.probe.trace(CALLEE_FUNCS, lines=True)
